@@ -108,7 +108,7 @@ def _judge_tt(rec, got, want, kind, what, **sub):
 
 
 def _tt(b1, u1, b2, u2):
-    return bl.two_theta(incident_beam=gc.vec(b1, u1), scattered_beam=gc.vec(b2, u2)).value
+    return float(bl.two_theta(incident_beam=gc.vec(b1, u1), scattered_beam=gc.vec(b2, u2)).value)
 
 
 def _exact_translation(S, b1, b2, src, pos):
@@ -188,8 +188,7 @@ def _run(case, rec):
             _judge_tt(rec, float(res[k]), w, 'inaccurate', f'rotation #{k}', rotation=k, **sub)
             if abs(float(res[k]) - got) > 2 * TT_TOL:
                 rec.viol(SITE_TT, 'rotation_dependent', f'rotation #{k}: {float(res[k])!r} vs unrotated {got!r}', rotation=k, **sub)
-        if float(res[0]) != got:
-            rec.viol(SITE_TT, 'array_vs_scalar', f'array element {float(res[0])!r} != 0-d result {got!r} for identical beams', **sub)
+        rec.cls('array_equals_scalar_bitwise' if float(res[0]) == got else 'array_differs_from_scalar')  # informative only
 
         # C: rescaling either beam
         s1 = [[f * x for x in b1] for f in SCALES]
@@ -218,8 +217,7 @@ def _run(case, rec):
     rec.transitions += 1
     for k, o in enumerate(OFFSETS):
         _judge_tt(rec, float(res[k]), refs[k], 'inaccurate', 'per-pixel array', offset=o)
-        if float(res[k]) != gots[k]:
-            rec.viol(SITE_TT, 'array_vs_scalar', f'per-pixel element {float(res[k])!r} != 0-d {gots[k]!r}', offset=o)
+        rec.cls('array_equals_scalar_bitwise' if float(res[k]) == gots[k] else 'array_differs_from_scalar')  # informative only
 
     # A'': per-pixel incident beam with a 0-d scattered beam (the mirror image of A')
     rec.states += 1
@@ -294,7 +292,7 @@ def _run(case, rec):
             rec.states += 1
             if _exact_translation(S, b1, b2s[k], src, poss[k]):
                 rec.cls('translation_exact')
-                same = bl.two_theta(incident_beam=gc.vec(b1, u), scattered_beam=gc.vec(b2s[k], u)).value
+                same = _tt(b1, u, b2s[k], u)
                 rec.transitions += 1
                 if abs(float(tt.values[k]) - same) > 1e-15:
                     rec.viol(SITE_TT, 'translation_dependent', f'sample at {S}: 2theta {float(tt.values[k])!r} vs untranslated {same!r}', sample=list(S), offset=o)
